@@ -19,6 +19,11 @@ unused phase tags left out), the kept header lines compared as a list (order and
 pairs*: a generated file and a random phase-only edit of it (alleles of complete genotypes permuted, separators, HP/PQ/PS and
 `##phasing` added / changed / deleted, every ploidy and call shape) — the model's executable checker `editB` certifies the
 edit (`edit_checker_iff`) and the real `whatshap unphase` must give the same records for both (`unphase_of_checked_edit`).
+Since round 7 (seed C13-e) also: what the header says about phasing is drawn independently of what the records use — every subset
+of {`##phasing` line, PS, HP, PQ definition} present or absent, records with `|` only (population-phaser style), with or
+without PS / HP / PQ values (undeclared keys are accepted by htslib), every ploidy; *header twins*: the same records under two
+different such headers must unphase to the same data lines (`file_records_whatever_header`); the histories through
+`whatshap phase` start from headers that declare none / some / all of the phase tags.
 """
 import collections, concurrent.futures, json, os, re, shutil, subprocess
 
@@ -34,7 +39,9 @@ RULE = ("case = one generated VCF (1-3 contigs, 0-4 samples, up to 14*scale reco
         "##PHASING, INFO fields named PS/HP, definitions of unused phase tags left out; given as path, on stdin or bgzipped) "
         "run through `whatshap unphase` twice, or one phase->unphase->phase->unphase history on a simulated scenario, or a file "
         "and a random phase-only edit of it (alleles of complete genotypes permuted, separators, HP/PQ/PS and ##phasing added / "
-        "changed / deleted; every ploidy) both unphased; non-trivial iff the file given to unphase has >= 1 data "
+        "changed / deleted; every ploidy) both unphased; in 55 % of the files the header has a random subset of {##phasing, PS, HP, "
+        "PQ definition} whatever the records use (tags all / none / some, genotypes mixed / all `|` / all `/` in any allele order), "
+        "half of those also as a twin with another subset; non-trivial iff the file given to unphase has >= 1 data "
         "line and >= 1 phased genotype or HP/PQ/PS value; distinct = distinct input text")
 MANIFEST = dict(
     text="Lean 4 theorems about a model of run_unphase's record loop written with Python primitives that raise where "
@@ -132,6 +139,17 @@ def oracle(in_text, out_text):
     return fails
 
 
+def header_vs_records(in_text, recs):
+    """which phase-related lines the header has / what the records carry (input distribution)"""
+    h = [l for l in in_text.split("\n") if l.startswith("##")]
+    decl = [t for t in G.PHASE_TAGS if any(l.startswith(f"##FORMAT=<ID={t},") for l in h)]
+    if any(l.startswith("##phasing=") for l in h):
+        decl.append("phasing")
+    used = sorted({k for r in recs for k in (r["format"] or []) if k in G.PHASE_TAGS})
+    pipe = any("|" in c[0] for r in recs if (r["format"] or [])[:1] == ["GT"] for c in r["calls"])
+    return f"header[{','.join(decl) or '-'}] records[{','.join(used + (['|'] if pipe else [])) or '-'}]"
+
+
 def header_observations(ctx, in_text, out_text):
     h_in = [l for l in in_text.split("\n") if l.startswith("##")]
     h_out = [l for l in out_text.split("\n") if l.startswith("##")]
@@ -210,6 +228,11 @@ def scenario_case(rng):
                      "format": fmt, "calls": calls})
     vcf = {"contigs": {n: len(s) for n, s in sc.contigs.items()}, "samples": list(samples), "phasing_header": False,
            "records": recs}
+    if rng.random() < 0.7:
+        # the unphased original says nothing (or anything) about phasing in its header: none / some / all of the definitions
+        sub = G.gen_subset(rng)
+        vcf["phase_header"] = sorted(sub)
+        vcf["header_lines"] = G.gen_header(rng, vcf, subset=sub, shuffle=False)
     reads = [{k: r[k] for k in ("name", "chrom", "start", "cigar", "seq", "rg", "mapq")} for r in sc.reads]
     return {"kind": "history", "fasta": sc.contigs, "reads": reads, "read_groups": sc.read_groups(), "vcf": vcf,
             "tag": rng.choice(["PS", "PS", "HP"])}
@@ -268,6 +291,11 @@ def _run(ctx, rng, wd):
             p = os.path.join(d, "in.vcf")
             open(p, "w").write(text)
             res["inputs"] = [("file", p, text)]
+            if case.get("twin_header_lines"):
+                text2 = G.vcf_text(dict(case, header_lines=case["twin_header_lines"]))
+                p2 = os.path.join(d, "twin.vcf")
+                open(p2, "w").write(text2)
+                res["inputs"].append(("twin", p2, text2))
         else:
             fa, bam, vcf, phased = (os.path.join(d, n) for n in ("ref.fasta", "in.bam", "in.vcf", "phased.vcf"))
             sim.write_fasta(fa, case["fasta"])
@@ -338,6 +366,7 @@ def _run(ctx, rng, wd):
         kind = case.get("kind", "file")
         ctx.evaluated()
         ctx.dist("kind", kind)
+        n0 = len(ctx.fails)
         if kind == "history":
             if res["phase_rc"] != 0:
                 ctx.observe("whatshap phase failed on a generated scenario: " + res["phase_err"][-120:])
@@ -350,6 +379,7 @@ def _run(ctx, rng, wd):
                 ctx.nontrivial(run["in_text"])
             ctx.dist("records", min(len(recs), 40) // 5 * 5)
             ctx.dist("samples", len(recs[0]["calls"]) if recs else 0)
+            ctx.dist("header_vs_records", header_vs_records(run["in_text"], recs))
             for r in recs:
                 fmt = r["format"] or []
                 if "GT" not in fmt and r["calls"]:
@@ -452,6 +482,15 @@ def _run(ctx, rng, wd):
             if "ok" not in model["fix"] or model["fix"]["ok"] != model["spec"]:
                 ctx.disagree("c13.unphase.fix", case, "unphaseFix differs from unphase", model["fix"])
             ctx.validated()
+        if kind == "file" and len(res["runs"]) == 2 and all(r["rc"] == 0 for r in res["runs"]):
+            a, b = (data_lines(r["out"]) for r in res["runs"])
+            ctx.dist("header_twins", "compared")
+            if a != b:
+                first = next((i for i, (x, y) in enumerate(zip(a, b)) if x != y), None)
+                ctx.fail(f"[file/twin] the same records unphase differently under a header with {case['phase_header'] or 'no phase lines'} "
+                         f"and under one with {case['twin_phase_header'] or 'no phase lines'}: data line {first}: "
+                         f"{(a[first] if first is not None else len(a))!r} vs {(b[first] if first is not None else len(b))!r}",
+                         case, key="unphase-depends-on-header")
         if kind == "edit" and len(res["runs"]) == 2:
             ra, rb = res["runs"]
             chk = ctx.model.ask_many([{"op": "c13.isedit", "a": G.model_records(ra["recs"]), "b": G.model_records(rb["recs"])}])[0]
@@ -493,3 +532,5 @@ def _run(ctx, rng, wd):
                          case, key="unphase-phase-neq-unphase")
         if len(ctx.samples) < 3 and kind == "file" and res["runs"] and res["runs"][0]["rc"] == 0 and len(res["runs"][0]["recs"]) <= 4:
             ctx.sample({"input_data_lines": data_lines(res["runs"][0]["in_text"]), "output_data_lines": data_lines(res["runs"][0]["out"])})
+        for key in sorted({k for _, _, k in ctx.fails[n0:]}):
+            ctx.dist("finding", f"{kind}:{key}")          # cases per kind of violation
